@@ -1695,6 +1695,81 @@ fn main() {
         sp.done(true, &format!("{} values x 41 widths/precisions x 16 format specs", rt.len() + ht.len() + 2));
         lap(&t0, &sp.name);
     }
+    // ------------------------------------------------------- 12. wrapper types
+    let sp = ctx.space("wrappers.taluri",
+        "repository::tal::TalUri (the public enum that wraps either URI type and is Eq + Hash) built by every route {From<Rsync>, From<Https>, from_slice, from_string, from_bytes, FromStr, TryFrom<String>, serde} from every accepted rsync and https text (three scheme spellings, authority letters in both cases; tails up to the stated length): every route gives the same value; for all ordered pairs a == b must be the text model's verdict (same kind and model-equal URIs), equal values must hash identically under the three hashers and collapse in a HashSet, as_str is the text and is_rsync / is_https name the kind; non-trivial = ordered pairs of different texts that are model-equal");
+    {
+        use rpki::repository::tal::TalUri;
+        let wl: usize = ctx.tier.pick(3, 4);
+        let ru = mk_ru(&upto(&r_by_len, wl)); let hu = mk_hu(&upto(&h_by_len, wl));
+        // (kind, key for model equality, text, value)
+        struct W { rsync: bool, key: (Vec<u8>, Vec<u8>), text: Vec<u8>, v: TalUri, hash: H3 }
+        let mut ws: Vec<W> = Vec::new();
+        let mut fl0 = Fails::new();
+        for r in &ru {
+            let v: TalUri = r.uri.clone().into();
+            ws.push(W { rsync: true, key: (r.pkey.clone(), r.path.clone()), text: r.text.clone(), hash: guard(|| h(&v)).unwrap_or((0, 0, 0)), v });
+        }
+        for x in &hu {
+            let v: TalUri = x.uri.clone().into();
+            ws.push(W { rsync: false, key: (x.pkey.clone(), x.path.clone()), text: x.text.clone(), hash: guard(|| h(&v)).unwrap_or((0, 0, 0)), v });
+        }
+        // routes: every way of obtaining the wrapper gives the same value
+        for w in &ws {
+            let txt = String::from_utf8(w.text.clone()).unwrap();
+            let wit = || format!("text={}", s(&w.text));
+            let routes: Vec<(&str, Result<Result<TalUri, String>, String>)> = vec![
+                ("from_slice", guard(|| TalUri::from_slice(&w.text).map_err(|e| e.to_string()))),
+                ("from_string", guard(|| TalUri::from_string(txt.clone()).map_err(|e| e.to_string()))),
+                ("from_bytes", guard(|| TalUri::from_bytes(bytes::Bytes::copy_from_slice(&w.text)).map_err(|e| e.to_string()))),
+                ("FromStr", guard(|| txt.parse::<TalUri>().map_err(|e| e.to_string()))),
+                ("TryFrom<String>", guard(|| TalUri::try_from(txt.clone()).map_err(|e| e.to_string()))),
+                ("serde", guard(|| serde_json::to_string(&w.v).map_err(|e| e.to_string()).and_then(|j| serde_json::from_str::<TalUri>(&j).map_err(|e| e.to_string())))),
+            ];
+            sp.evals(routes.len() as u64);
+            for (name, r) in routes {
+                match r {
+                    Err(p) => fl0.fail("C12.wrappers.taluri.routes", &wit, || format!("{name} panics: {p}")),
+                    Ok(Err(e)) => fl0.fail("C12.wrappers.taluri.routes", &wit, || format!("{name} refuses a text the URI parser accepts: {e}")),
+                    Ok(Ok(v)) => {
+                        if v != w.v || v.as_str().as_bytes() != &w.text[..] || v.is_rsync() != w.rsync || v.is_https() == w.rsync {
+                            fl0.fail("C12.wrappers.taluri.routes", &wit, || format!("{name} gives {:?} (as_str {:?}, is_rsync {}), From<the parsed URI> gives {:?}", v, v.as_str(), v.is_rsync(), w.v));
+                        }
+                        if let Some(d) = hash_diff(h(&v), w.hash) { fl0.fail("C12.wrappers.taluri.hash", &wit, || format!("{name} and From<the parsed URI> give equal values told apart by {d}")) }
+                    }
+                }
+            }
+        }
+        fl0.flush(&ctx);
+        let n = ws.len();
+        batched(&ctx, n, 64, |i, fl| {
+            let a = &ws[i];
+            let (mut ev, mut nt) = (0u64, 0u64); let mut oc: Oc = BTreeMap::new();
+            for b in ws.iter() {
+                ev += 1;
+                let model_eq = a.rsync == b.rsync && a.key == b.key;
+                if model_eq && a.text != b.text { nt += 1 }
+                bump(&mut oc, if model_eq { "equal" } else { "different" });
+                let wit = || format!("a={} b={}", s(&a.text), s(&b.text));
+                match guard(|| a.v == b.v) {
+                    Err(p) => fl.fail("C12.wrappers.taluri.eq", &wit, || p),
+                    Ok(eq) => {
+                        if eq != model_eq { fl.fail("C12.wrappers.taluri.eq", &wit, || format!("a == b is {eq}, the text model (scheme and authority case-insensitive, the rest exact) says {model_eq}")) }
+                        if eq { if let Some(d) = hash_diff(a.hash, b.hash) { fl.fail("C12.wrappers.taluri.hash", &wit, || format!("equal values told apart by {d}")) } }
+                        if eq {
+                            let mut set = std::collections::HashSet::new(); set.insert(a.v.clone()); set.insert(b.v.clone());
+                            if set.len() != 1 { fl.fail("C12.wrappers.taluri.hash", &wit, || "a HashSet keeps both of two equal values".to_string()) }
+                        }
+                    }
+                }
+            }
+            sp.evals(ev); sp.nontrivial(nt); sp.merge_outcomes(&oc);
+        });
+        sp.set("values", json!(n));
+        sp.sample_str(|| "a=rsync://a/a/ b=RSYNC://A/a/ : TalUri::Rsync values equal, same hash under all three hashers, one HashSet entry".into());
+        sp.done(true, &format!("{n} values (tails <= {wl}) x 6 construction routes; all {n} x {n} ordered pairs"));
+        lap(&t0, &sp.name);
+    }
     let suppressed = SUPPRESSED.load(AtomicOrdering::Relaxed);
     if suppressed > 0 {
         sp.set("failing_cases_counted_but_not_listed_individually", json!(suppressed));
